@@ -24,7 +24,7 @@ func init() {
 	register(&Rule{
 		ID:    "PAIR-2",
 		Doc:   "arrowhead flag: every store into Edge.ArrowHeadStart writes the un-negated value of IsReversed loaded from the same edge; in the merge step every appended route is preceded, on the same edge, by such a store (directly or inside the callee that builds the route)",
-		Floor: 3,
+		Floor: 2,
 		Ctl:   []string{"internal__phase5__pair2.go.txt"},
 		Run:   runPair2,
 	})
@@ -320,6 +320,40 @@ func runPair2(m *Model, r *RuleResult) {
 					Detail: detail + ": after un-reversal the arrowhead would be drawn at the wrong end", Control: ctl})
 			}
 		})
+	}
+	// transitively: a function that hands its edge parameter to a flag-setting function on every path sets the flag too
+	for changed := true; changed; {
+		changed = false
+		for _, f := range m.Src {
+			if setsFlag[f] {
+				continue
+			}
+			eachInstr(f, func(in ssa.Instruction) {
+				ci, ok := in.(ssa.CallInstruction)
+				if !ok || setsFlag[f] {
+					return
+				}
+				c := ci.Common().StaticCallee()
+				if c == nil || !setsFlag[c] {
+					return
+				}
+				for _, a := range ci.Common().Args {
+					if paramIndex(f, a) < 0 || namedKey(a.Type()) != igEdge {
+						continue
+					}
+					all := true
+					eachInstr(f, func(in2 ssa.Instruction) {
+						if ret, ok := in2.(*ssa.Return); ok && !instrDominates(in, ret) {
+							all = false
+						}
+					})
+					if all {
+						setsFlag[f] = true
+						changed = true
+					}
+				}
+			})
+		}
 	}
 	// merge step: every appended route preceded by a flag store on the same edge
 	for _, f := range m.Src {
@@ -774,7 +808,17 @@ func runPair4(m *Model, r *RuleResult) {
 		r.violation("chain-loop-exit", m.Pos(rf.Pos()), "the chain-merging loop must run until e.To is a real node", why+": a route would end at a helper node")
 	}
 	// mergeLongEdges: call of reduceForward control-dependent on !e.From.IsVirtual
-	sites := staticCalls(mg, func(c *ssa.Function) bool { return c == rf })
+	var reachesRF func(c *ssa.Function, depth int) bool
+	reachesRF = func(c *ssa.Function, depth int) bool {
+		if c == rf {
+			return true
+		}
+		if depth > 3 || pkgPathOf(c) != pkgPathOf(mg) {
+			return false
+		}
+		return len(staticCalls(c, func(c2 *ssa.Function) bool { return c2 != c && reachesRF(c2, depth+1) })) > 0
+	}
+	sites := staticCalls(mg, func(c *ssa.Function) bool { return reachesRF(c, 0) })
 	if len(sites) == 0 {
 		r.undecided("hybrid-start", m.Pos(mg.Pos()), "mergeLongEdges calls reduceForward", "no call found")
 		return
@@ -1217,6 +1261,9 @@ func runBest1(m *Model, r *RuleResult) {
 		}
 	}
 	if run == nil {
+		if best1StructMode(m, r) {
+			return
+		}
 		r.undecided("median-run", "-", "a phase-3 function returning (crossings, positions)", "not found")
 		return
 	}
@@ -2303,10 +2350,20 @@ func runCap1(m *Model, r *RuleResult) {
 			continue
 		}
 		res := f.Signature.Results()
-		if res.Len() != 2 {
-			continue
+		isRun := false
+		if res.Len() == 2 {
+			_, isRun = res.At(1).Type().Underlying().(*types.Map)
+		} else if res.Len() == 1 {
+			// the record spelling: one struct with an int and a map field
+			if st, ok := res.At(0).Type().Underlying().(*types.Struct); ok && st.NumFields() == 2 {
+				for i := 0; i < 2; i++ {
+					if _, ok := st.Field(i).Type().Underlying().(*types.Map); ok {
+						isRun = true
+					}
+				}
+			}
 		}
-		if _, ok := res.At(1).Type().Underlying().(*types.Map); !ok {
+		if !isRun {
 			continue
 		}
 		loops := naturalLoops(f)
@@ -2683,4 +2740,542 @@ func runBal1(m *Model, r *RuleResult) {
 	if n == 0 {
 		r.undecided("balance", "-", "a degree-guarded store to Node.Layer (vertical balancing) must exist in phase 2", "not found: balancing would move non-neutral nodes, lengthening edges")
 	}
+}
+
+
+// ---------- BEST-1, record spelling: the run returns one struct {crossings int; positions map} ----------
+
+// best1StructMode decides BEST-1 when count and positions travel together in a record. The pairing is then by construction
+// as long as the record is only ever replaced as a whole; the clauses are the same as in the two-value spelling.
+func best1StructMode(m *Model, r *RuleResult) bool {
+	m.fxInit()
+	recFields := func(t types.Type) (ci, pi int, ok bool) {
+		st, isS := t.Underlying().(*types.Struct)
+		if !isS || st.NumFields() != 2 {
+			return 0, 0, false
+		}
+		ci, pi = -1, -1
+		for i := 0; i < 2; i++ {
+			switch u := st.Field(i).Type().Underlying().(type) {
+			case *types.Basic:
+				if u.Kind() == types.Int {
+					ci = i
+				}
+			case *types.Map:
+				pi = i
+			}
+		}
+		return ci, pi, ci >= 0 && pi >= 0
+	}
+	var run *ssa.Function
+	for _, f := range m.Src {
+		if shortPkg(pkgPathOf(f)) != "internal/phase3" || f.Parent() != nil || m.FuncIsPosctl(f) || f.Signature.Results().Len() != 1 || f.Signature.Recv() != nil {
+			continue
+		}
+		if _, _, ok := recFields(f.Signature.Results().At(0).Type()); ok && len(f.Params) >= 1 && namedKey(f.Params[0].Type()) == igDG {
+			run = f
+		}
+	}
+	if run == nil {
+		return false
+	}
+	ci, pi, _ := recFields(run.Signature.Results().At(0).Type())
+	rpos := m.Pos(run.Pos())
+	rkey := "best-pair:" + funcKey(run)
+	// the record variable that is returned
+	var best *ssa.Alloc
+	okRet := true
+	eachInstr(run, func(in ssa.Instruction) {
+		ret, ok := in.(*ssa.Return)
+		if !ok {
+			return
+		}
+		u, isU := ret.Results[0].(*ssa.UnOp)
+		if !isU || u.Op != token.MUL {
+			okRet = false
+			return
+		}
+		al, isA := u.X.(*ssa.Alloc)
+		if !isA || (best != nil && best != al) {
+			okRet = false
+			return
+		}
+		best = al
+	})
+	var bad []string
+	if best == nil || !okRet {
+		bad = append(bad, "the run does not return one record variable on all paths")
+	} else {
+		loops := naturalLoops(run)
+		nUpd := 0
+		// update events: a whole-record store, or (the builder's direct spelling of `best = T{x, y}`) one store per field
+		// in the same block
+		type event struct {
+			at        ssa.Instruction
+			cnt, posv ssa.Value
+		}
+		var events []event
+		perBlock := map[*ssa.BasicBlock]*event{}
+		for _, ref := range *best.Referrers() {
+			switch x := ref.(type) {
+			case *ssa.FieldAddr:
+				for _, r2 := range *x.Referrers() {
+					st, ok := r2.(*ssa.Store)
+					if !ok || st.Addr != ssa.Value(x) {
+						continue
+					}
+					ev := perBlock[st.Block()]
+					if ev == nil {
+						ev = &event{at: st}
+						perBlock[st.Block()] = ev
+					}
+					if x.Field == ci {
+						ev.cnt = st.Val
+					}
+					if x.Field == pi {
+						ev.posv = st.Val
+					}
+				}
+			case *ssa.Store:
+				if x.Addr != ssa.Value(best) {
+					continue
+				}
+				ev := event{at: x}
+				if ld, ok := x.Val.(*ssa.UnOp); ok && ld.Op == token.MUL {
+					if lit, ok := ld.X.(*ssa.Alloc); ok {
+						for _, lr := range *lit.Referrers() {
+							fa, ok := lr.(*ssa.FieldAddr)
+							if !ok {
+								continue
+							}
+							for _, r3 := range *fa.Referrers() {
+								if st, ok := r3.(*ssa.Store); ok && st.Addr == ssa.Value(fa) {
+									if fa.Field == ci {
+										ev.cnt = st.Val
+									}
+									if fa.Field == pi {
+										ev.posv = st.Val
+									}
+								}
+							}
+						}
+					}
+				}
+				events = append(events, ev)
+			}
+		}
+		for _, ev := range perBlock {
+			events = append(events, *ev)
+		}
+		for _, ev := range events {
+			nUpd++
+			if ev.cnt == nil || ev.posv == nil {
+				bad = append(bad, "the best-so-far record is not replaced as a whole at "+m.Pos(ev.at.Pos())+" (count and positions no longer belong together)")
+				continue
+			}
+			pv := ev.posv
+			if ct, ok := pv.(*ssa.ChangeType); ok {
+				pv = ct.X
+			}
+			isCloneCall := func(v ssa.Value) bool {
+				call, ok := v.(*ssa.Call)
+				if !ok || call.Call.StaticCallee() == nil {
+					return false
+				}
+				c := call.Call.StaticCallee()
+				if c.Origin() != nil {
+					c = c.Origin()
+				}
+				return c.Name() == "Clone"
+			}
+			if !isCloneCall(pv) {
+				bad = append(bad, "the positions stored at "+m.Pos(ev.at.Pos())+" are not a fresh copy (Clone): "+pv.String())
+			}
+			if len(loopsContaining(loops, ev.at.Block())) == 0 {
+				continue // the initial record, before the sweeps
+			}
+			improved := false
+			for _, d := range iterationControlDeps(ev.at.Block(), loops) {
+				bo, ok := d.If.Cond.(*ssa.BinOp)
+				if !ok {
+					continue
+				}
+				isBestCount := func(v ssa.Value) bool {
+					u, ok := v.(*ssa.UnOp)
+					if !ok || u.Op != token.MUL {
+						return false
+					}
+					fa, ok := u.X.(*ssa.FieldAddr)
+					return ok && fa.X == ssa.Value(best) && fa.Field == ci
+				}
+				if (bo.Op == token.LSS && bo.X == ev.cnt && isBestCount(bo.Y) && d.Branch == 0) || (bo.Op == token.GTR && bo.Y == ev.cnt && isBestCount(bo.X) && d.Branch == 0) {
+					improved = true
+				}
+			}
+			if !improved {
+				bad = append(bad, "the record is replaced at "+m.Pos(ev.at.Pos())+" without the new count being strictly smaller than the best so far")
+			}
+		}
+		if nUpd < 2 {
+			bad = append(bad, "no improvement step found")
+		}
+	}
+	if len(bad) == 0 {
+		r.holds(rkey, rpos, "the best-so-far record is only replaced as a whole, by {new count, fresh copy of the positions}, and only when the new count is strictly smaller")
+	} else {
+		r.violation(rkey, rpos, "count and positions of the best order must be updated together, on strict improvement only", strings.Join(uniq(bad), "; "))
+	}
+	// caller
+	for _, f := range m.Src {
+		sites := staticCalls(f, func(c *ssa.Function) bool { return c == run })
+		if len(sites) < 2 {
+			continue
+		}
+		ctl := m.FuncIsPosctl(f)
+		pos := m.Pos(f.Pos())
+		key := "select:" + funcKey(f)
+		// the run results: the call values themselves (records are SSA values), or local variables they are stored into
+		runVal := map[ssa.Value]bool{}
+		for _, sc := range sites {
+			v := sc.Value()
+			if v == nil || v.Referrers() == nil {
+				continue
+			}
+			runVal[v] = true
+		}
+		src := func(v ssa.Value) ssa.Value {
+			// the run result that v denotes: the call value, or a load of a variable holding only that call value
+			if runVal[v] {
+				return v
+			}
+			if ld, ok := v.(*ssa.UnOp); ok && ld.Op == token.MUL {
+				if al, ok := ld.X.(*ssa.Alloc); ok {
+					var only ssa.Value
+					n := 0
+					for _, ref := range *al.Referrers() {
+						if st, ok := ref.(*ssa.Store); ok && st.Addr == ssa.Value(al) {
+							n++
+							only = st.Val
+						}
+					}
+					if n == 1 && runVal[only] {
+						return only
+					}
+				}
+			}
+			return nil
+		}
+		// the selected record: a variable that receives run results
+		var sel *ssa.Alloc
+		var selStores []*ssa.Store
+		eachInstr(f, func(in ssa.Instruction) {
+			st, ok := in.(*ssa.Store)
+			if !ok {
+				return
+			}
+			al, ok := st.Addr.(*ssa.Alloc)
+			if !ok || src(st.Val) == nil {
+				return
+			}
+			// a variable that holds a single run result is not the selection
+			n := 0
+			for _, ref := range *al.Referrers() {
+				if s2, ok := ref.(*ssa.Store); ok && s2.Addr == ssa.Value(al) {
+					n++
+				}
+			}
+			if n < 2 {
+				return
+			}
+			if sel == nil || sel == al {
+				sel = al
+				selStores = append(selStores, st)
+			}
+		})
+		countOf := func(v ssa.Value) ssa.Value {
+			// the run result whose count v is: <run>.crossings, or a run record itself
+			if fl, ok := v.(*ssa.Field); ok && fl.Field == ci {
+				return src(fl.X)
+			}
+			if u, ok := v.(*ssa.UnOp); ok && u.Op == token.MUL {
+				if fa, ok := u.X.(*ssa.FieldAddr); ok && fa.Field == ci {
+					if al, ok := fa.X.(*ssa.Alloc); ok {
+						// load of the variable's field: same as loading the variable
+						for _, ref := range *al.Referrers() {
+							if ld, ok := ref.(*ssa.UnOp); ok && ld.Op == token.MUL && ld.X == ssa.Value(al) {
+								if r0 := src(ld); r0 != nil {
+									return r0
+								}
+							}
+						}
+						var only ssa.Value
+						n := 0
+						for _, ref := range *al.Referrers() {
+							if st, ok := ref.(*ssa.Store); ok && st.Addr == ssa.Value(al) {
+								n++
+								only = st.Val
+							}
+						}
+						if n == 1 && runVal[only] {
+							return only
+						}
+					}
+				}
+			}
+			return src(v)
+		}
+		okSel := sel != nil && len(selStores) == 2 && len(runVal) == 2
+		why := "no record variable that receives one of the two run results was found"
+		if okSel {
+			// the default (unconditional) store and the conditional one
+			for _, st := range selStores {
+				sv := src(st.Val)
+				deps := transitiveControlDeps(st.Block())
+				isDefault := false
+				for _, other := range selStores {
+					if other != st && instrDominates(st, other) {
+						isDefault = true // the default choice, overwritten under the comparison
+					}
+				}
+				if isDefault {
+					continue
+				}
+				good := false
+				for _, d := range deps {
+					var a, b ssa.Value
+					strict := false
+					switch c := d.If.Cond.(type) {
+					case *ssa.BinOp:
+						if c.Op == token.LSS || c.Op == token.LEQ {
+							a, b = countOf(c.X), countOf(c.Y)
+							strict = true
+						} else if c.Op == token.GTR || c.Op == token.GEQ {
+							a, b = countOf(c.Y), countOf(c.X)
+							strict = true
+						}
+					case *ssa.Call:
+						// one-line accessor: recv.count < other.count
+						cal := c.Call.StaticCallee()
+						if cal != nil && len(cal.Blocks) == 1 && len(c.Call.Args) == 2 && len(cal.Params) == 2 {
+							if ret, ok := cal.Blocks[0].Instrs[len(cal.Blocks[0].Instrs)-1].(*ssa.Return); ok && len(ret.Results) == 1 {
+								if bo, ok := ret.Results[0].(*ssa.BinOp); ok && (bo.Op == token.LSS || bo.Op == token.LEQ) {
+									fieldOfParam := func(v ssa.Value) int {
+										if fl, ok := v.(*ssa.Field); ok && fl.Field == ci {
+											for i, p := range cal.Params {
+												if fl.X == ssa.Value(p) {
+													return i
+												}
+											}
+										}
+										if u, ok := v.(*ssa.UnOp); ok && u.Op == token.MUL {
+											if fa, ok := u.X.(*ssa.FieldAddr); ok && fa.Field == ci {
+												// a spilled value parameter
+												if al, ok := fa.X.(*ssa.Alloc); ok {
+													for _, ref := range *al.Referrers() {
+														if st, ok := ref.(*ssa.Store); ok && st.Addr == ssa.Value(al) {
+															for i, p := range cal.Params {
+																if st.Val == ssa.Value(p) {
+																	return i
+																}
+															}
+														}
+													}
+												}
+												for i, p := range cal.Params {
+													if fa.X == ssa.Value(p) {
+														return i
+													}
+												}
+											}
+										}
+										return -1
+									}
+									i, j := fieldOfParam(bo.X), fieldOfParam(bo.Y)
+									if i >= 0 && j >= 0 {
+										a, b = countOf(c.Call.Args[i]), countOf(c.Call.Args[j])
+										strict = true
+									}
+								}
+							}
+						}
+					}
+					// a < b (or <=) holds on branch 0: the store must take a; on branch 1 it must take b
+					if strict && a != nil && b != nil && a != b {
+						if (d.Branch == 0 && sv == a) || (d.Branch == 1 && sv == b) {
+							good = true
+						}
+					}
+				}
+				if !good {
+					okSel = false
+					why = "the run stored at " + m.Pos(st.Pos()) + " is not selected because its count is the smaller one"
+				}
+			}
+		}
+		if okSel {
+			r.add(Obligation{Key: key, Pos: pos, Desc: "one record (count and positions together) is selected from the two runs, the one with fewer crossings", Verdict: "holds", Control: ctl})
+		} else {
+			r.add(Obligation{Key: key, Pos: pos, Desc: "count and positions must come from the same, better run", Verdict: "violation", Detail: why, Control: ctl})
+			continue
+		}
+		// no bypass: the run results are only used by the selection and by its comparison
+		bypass := ""
+		var checkUses func(v ssa.Value, depth int)
+		checkUses = func(v ssa.Value, depth int) {
+			if v.Referrers() == nil || depth > 3 {
+				return
+			}
+			for _, ref := range *v.Referrers() {
+				switch x := ref.(type) {
+				case *ssa.DebugRef:
+				case *ssa.Store:
+					if al, ok := x.Addr.(*ssa.Alloc); ok && x.Val == v {
+						if al == sel {
+							continue
+						}
+						// a variable holding this run result: its uses count as uses of the result
+						for _, r2 := range *al.Referrers() {
+							switch y := r2.(type) {
+							case *ssa.UnOp:
+								checkUses(y, depth+1)
+							case *ssa.FieldAddr:
+								if y.Field != ci {
+									bypass = "the positions of one run are read directly at " + m.Pos(y.Pos())
+								}
+							}
+						}
+						continue
+					}
+					bypass = "a run result is stored away at " + m.Pos(x.Pos())
+				case *ssa.Field:
+					if x.Field != ci {
+						bypass = "the positions of one run are read directly at " + m.Pos(x.Pos())
+					}
+				case ssa.CallInstruction, *ssa.BinOp:
+				default:
+					bypass = fmt.Sprintf("a run result is used by %T at %s", ref, m.Pos(ref.Pos()))
+				}
+			}
+		}
+		for v := range runVal {
+			checkUses(v, 0)
+		}
+		if bypass == "" {
+			r.add(Obligation{Key: key + ":no-bypass", Pos: pos, Desc: "every seeded run takes part in the selection", Verdict: "holds", Control: ctl})
+		} else {
+			r.add(Obligation{Key: key + ":no-bypass", Pos: pos, Desc: "every seeded run must take part in the selection", Verdict: "violation", Detail: bypass, Control: ctl})
+		}
+		// logged value and restored map come from the selected record
+		isSelField := func(v ssa.Value, field int) bool {
+			u, ok := v.(*ssa.UnOp)
+			if !ok || u.Op != token.MUL {
+				return false
+			}
+			fa, ok := u.X.(*ssa.FieldAddr)
+			return ok && fa.X == ssa.Value(sel) && fa.Field == field
+		}
+		logged, strayLog := false, ""
+		var restoreAt ssa.Instruction
+		restored, strayRestore := false, ""
+		eachInstr(f, func(in ssa.Instruction) {
+			switch x := in.(type) {
+			case ssa.CallInstruction:
+				c := x.Common().StaticCallee()
+				if c != nil && c.Name() == "Log" && strings.HasSuffix(pkgPathOf(c), "/internal/monitor") {
+					if k, ok := x.Common().Args[0].(*ssa.Const); ok && k.Value != nil && k.Value.String() == `"crossings"` {
+						if mi, ok := x.Common().Args[1].(*ssa.MakeInterface); ok && isSelField(mi.X, ci) {
+							logged = true
+						} else {
+							strayLog = m.Pos(in.Pos())
+						}
+					}
+					return
+				}
+				// a helper of the package that restores LayerPos from its map parameter
+				if c != nil && pkgPathOf(c) == pkgPathOf(f) && c != run && m.effects[c] != nil && m.effects[c].Mod[igNode+".LayerPos"] {
+					okArg := false
+					for i, a := range x.Common().Args {
+						if isSelField(a, pi) && i < len(c.Params) {
+							// in the helper every store of LayerPos is a lookup in that parameter
+							all, n := true, 0
+							eachInstr(c, func(in2 ssa.Instruction) {
+								if st, ok := in2.(*ssa.Store); ok {
+									if fa, ok := st.Addr.(*ssa.FieldAddr); ok {
+										_, steps := fieldChain(fa)
+										if locOfSteps(steps) == igNode+".LayerPos" {
+											n++
+											if lk, ok := st.Val.(*ssa.Lookup); !ok || lk.X != ssa.Value(c.Params[i]) {
+												all = false
+											}
+										}
+									}
+								}
+							})
+							okArg = all && n > 0
+						}
+					}
+					if okArg {
+						restored = true
+						restoreAt = in
+					} else if instrReaches(sites[len(sites)-1], in) {
+						strayRestore = funcKey(c) + " at " + m.Pos(in.Pos())
+					}
+				}
+			case *ssa.Store:
+				if fa, ok := x.Addr.(*ssa.FieldAddr); ok {
+					_, steps := fieldChain(fa)
+					if locOfSteps(steps) == igNode+".LayerPos" {
+						if lk, ok := x.Val.(*ssa.Lookup); ok && isSelField(lk.X, pi) {
+							restored = true
+							restoreAt = in
+						} else {
+							strayRestore = m.Pos(in.Pos())
+						}
+					}
+				}
+			}
+		})
+		if logged && strayLog == "" {
+			r.add(Obligation{Key: key + ":logged", Pos: pos, Desc: "the count logged under \"crossings\" is the selected record's count", Verdict: "holds", Control: ctl})
+		} else {
+			r.add(Obligation{Key: key + ":logged", Pos: pos, Desc: "the count logged under \"crossings\" must be the selected count", Verdict: "violation", Detail: "a Log(\"crossings\", ...) does not receive the selected record's count " + strayLog, Control: ctl})
+		}
+		if restored && strayRestore == "" {
+			r.add(Obligation{Key: key + ":restored", Pos: pos, Desc: "Node.LayerPos is restored from the selected record's positions", Verdict: "holds", Control: ctl})
+		} else {
+			r.add(Obligation{Key: key + ":restored", Pos: pos, Desc: "Node.LayerPos must be restored from the selected positions", Verdict: "violation", Detail: "order state is written from something other than the selected record's positions " + strayRestore, Control: ctl})
+		}
+		// final order: nothing re-orders after the restore
+		if restoreAt != nil {
+			after := map[*ssa.BasicBlock]bool{}
+			for b := range blocksReachableFrom(restoreAt.Block()) {
+				after[b] = true
+			}
+			var late []string
+			eachInstr(f, func(in ssa.Instruction) {
+				ci2, ok := in.(ssa.CallInstruction)
+				if !ok || in == restoreAt {
+					return
+				}
+				later := after[in.Block()] || (in.Block() == restoreAt.Block() && instrIndex(in) > instrIndex(restoreAt))
+				if !later {
+					return
+				}
+				for _, cal := range m.Callees(ci2) {
+					if !inModule(cal) {
+						continue
+					}
+					if e := m.effects[cal]; e != nil && (e.Mod[igNode+".LayerPos"] || e.Mod[igLayer+".Nodes[]"] || e.Mod[igLayer+".Nodes"]) {
+						late = append(late, funcKey(cal)+" at "+m.Pos(in.Pos()))
+					}
+				}
+			})
+			if len(late) == 0 {
+				r.add(Obligation{Key: key + ":final", Pos: pos, Desc: "after the best positions are restored nothing re-orders the layers", Verdict: "holds", Control: ctl})
+			} else {
+				r.add(Obligation{Key: key + ":final", Pos: pos, Desc: "the restored order must be the final order of the phase", Verdict: "violation", Detail: "order state is modified after the reported order was restored: " + strings.Join(uniq(late), "; "), Control: ctl})
+			}
+		}
+	}
+	return true
 }
